@@ -2,18 +2,44 @@
 package main
 
 import (
+	"encoding/json"
 	"fmt"
 	"os"
 
+	"compiler/verifh/c10"
+	"compiler/verifh/c11"
+	"compiler/verifh/c16"
 	"compiler/verifh/c20"
+	"compiler/verifh/fe"
 	"compiler/verifh/vl"
 )
 
 var checks = map[string]func(*vl.Ctx){
+	"C10": c10.Run,
+	"C11": c11.Run,
+	"C16": c16.Run,
 	"C20": c20.Run,
 }
 
 func main() {
+	if len(os.Args) >= 4 && os.Args[1] == "worker-fe" {
+		fe.WorkerMain(os.Args[2], os.Args[3])
+		return
+	}
+	if len(os.Args) >= 4 && os.Args[1] == "probe" {
+		// probe <file.fer> <mode>: compile one file in-process, print the structured result
+		b, err := os.ReadFile(os.Args[2])
+		if err != nil {
+			panic(err)
+		}
+		d, _ := os.MkdirTemp("/dev/shm", "probe")
+		defer os.RemoveAll(d)
+		r := fe.Compile(d+"/proj", os.Getenv("VERIF_REPO")+"/ferret_libs", &fe.Project{Files: map[string]string{"main.fer": string(b)}, Entry: "main.fer", Mode: os.Args[3]})
+		r.Wasm = nil
+		j, _ := json.MarshalIndent(r, "", " ")
+		fmt.Println(string(j))
+		return
+	}
 	if len(os.Args) < 3 {
 		fmt.Fprintln(os.Stderr, "usage: check <Cnn> quick|thorough|triage")
 		os.Exit(2)
